@@ -179,6 +179,31 @@ def drive_c03(sess, rnd, cfg, record):
         yield _emit(record, {"op": "set_comp_phases", "name": load["name"], "conf": {hot: 2.0}})
         sess.stats["c03_phase_fallback_scenarios"] += 1
         yield _emit(record, {"op": "observe", "ta": 25.0, "sh": 1, "kw": {}, "c03": klass})
+    if klass == "modest" and R.chance(0.12):
+        # a load whose nominal value is a worst-case figure far above anything
+        # it draws in the defined phases (every phase is configured, so the
+        # nominal value applies in none of them)
+        from .spec import mk
+
+        m = sess.model
+        phs = list(m.sys_phases.keys())
+        if len(phs) < 2:
+            phs = ["sleep", "tx"]
+            yield _emit(record, {"op": "set_sys_phases", "phases": {"sleep": 120.0, "tx": 0.1}})
+        par = R.pick(g.nonload(m))
+        vn = abs(g.vnom(m, par)) or 1.0
+        kind = R.pick(["ILoad", "ILoad", "PLoad"])
+        small = g.eng(-3, -3)
+        if kind == "ILoad":
+            load = mk("ILoad", g.fresh("IL", m), {"ii": small * 2000.0}, None)
+            conf = {ph: small * R.pick([0.5, 1.0, 2.0]) for ph in phs}
+        else:
+            load = mk("PLoad", g.fresh("PL", m), {"pwr": small * vn * 2000.0}, None)
+            conf = {ph: small * vn * R.pick([0.5, 1.0, 2.0]) for ph in phs}
+        yield _emit(record, {"op": "add_comp", "parent": par, "comp": load, "group": "", "rail": ""})
+        yield _emit(record, {"op": "set_comp_phases", "name": load["name"], "conf": conf})
+        sess.stats["c03_worst_case_nominal_scenarios"] += 1
+        yield _emit(record, {"op": "observe", "ta": 25.0, "sh": 1, "kw": {}, "c03": klass})
     for _ in range(R.randint(2, 6)):
         m = sess.model
         if klass == "stress":
